@@ -46,7 +46,14 @@ class Bounds:
                 self.assigns.setdefault(n.target.id, []).append(n.value)
             elif isinstance(n, ast.AugAssign) and isinstance(n.target, ast.Name):
                 self.assigns.setdefault(n.target.id, []).append(ast.Constant(value=None))  # modified in place: unknown
-        self._busy: Set[str] = set()
+        self._busy: Set = set()
+        # straight-line re-assignment (x = b - a; x = x / norm(x)): when every assignment of a name is a statement of the function
+        # body itself, a use sees the last one above it, not the join of all
+        top = {}
+        for st in fn.node.body:
+            if isinstance(st, ast.Assign) and len(st.targets) == 1 and isinstance(st.targets[0], ast.Name):
+                top.setdefault(st.targets[0].id, []).append((st.lineno, st.value))
+        self.straight: Dict[str, List[Tuple[int, ast.expr]]] = {k: v for k, v in top.items() if len(v) == len(self.assigns.get(k, [])) and len(v) > 1}
 
     # ---------------------------------------------------------------------------------------
     def _is_pos_const(self, e: ast.expr) -> bool:
@@ -72,7 +79,16 @@ class Bounds:
             return max(kinds, key=ORDER.index)
         return kinds[0] if len(set(kinds)) == 1 else UNKNOWN
 
-    def name(self, ident: str) -> str:
+    def name(self, ident: str, at: Optional[int] = None) -> str:
+        if at is not None and ident in self.straight:
+            above = [v for ln, v in self.straight[ident] if ln < at]
+            if not above or (ident, at) in self._busy:
+                return UNKNOWN
+            self._busy.add((ident, at))
+            try:
+                return self.kind(above[-1])
+            finally:
+                self._busy.discard((ident, at))
         if ident in self._busy or ident not in self.assigns:
             return UNKNOWN
         self._busy.add(ident)
@@ -83,7 +99,7 @@ class Bounds:
 
     def kind(self, e: ast.expr) -> str:
         if isinstance(e, ast.Name):
-            return self.name(e.id)
+            return self.name(e.id, getattr(e, "lineno", None))
         if isinstance(e, ast.Subscript):
             return self.kind(e.value)  # nnorms[:, np.newaxis] -> nnorms ; v[0] -> v
         if isinstance(e, (ast.List, ast.Tuple)) and e.elts:
@@ -208,8 +224,9 @@ class Bounds:
 
 
 # exceptions confirmed by reading, one named function each
-EXEMPT = {
-    "optimize.cell.QuadCell.get_inner_angles": "the two adjacent sides of a corner are parallel only for a collinear (degenerate) corner, for which 'Degenerate Cell' is the documented outcome",
+EXEMPT: Dict[str, str] = {
+    # (QuadCell.get_inner_angles was listed here - 'a collinear corner is degenerate, Degenerate Cell is the documented outcome' -
+    #  until the real code was seen to raise for a straight corner in 20 of 200 orientations and to return a value in the others)
 }
 
 
